@@ -71,8 +71,24 @@ def extract(config="lib", force=False, repo=None):
     t0 = time.time()
     # dependencies are built once into a persistent target dir; the crate's own fingerprints are
     # removed so that cargo re-invokes the wrapper (cargo would otherwise replay a cached result)
-    target = os.path.join(CACHE, "target-" + config)
+    # (parallel corpus workers each use their own copy of the target directory: cargo locks it)
+    target = os.path.join(CACHE, "target-" + config + os.environ.get("VERIF_TARGET_SUFFIX", ""))
     os.makedirs(target, exist_ok=True)
+    # several checks may be started at the same time: one extraction per target directory at a time (the fingerprint
+    # removal below must not hit a running cargo), and whoever comes second finds the facts of the first
+    import fcntl
+    lock = open(os.path.join(CACHE, os.path.basename(target) + ".lock"), "w")
+    fcntl.flock(lock, fcntl.LOCK_EX)
+    try:
+        if os.path.isfile(out) and not force and not os.environ.get("VERIF_NO_CACHE"):
+            return out, key, 0.0, True
+        return _extract_locked(config, out, key, target, t0)
+    finally:
+        fcntl.flock(lock, fcntl.LOCK_UN)
+        lock.close()
+
+
+def _extract_locked(config, out, key, target, t0):
     for prof in ("debug",):
         fp = os.path.join(target, prof, ".fingerprint")
         if os.path.isdir(fp):
@@ -123,6 +139,8 @@ def extract(config="lib", force=False, repo=None):
         os.replace(out + ".tmp", out)
     shutil.rmtree(tmp, ignore_errors=True)
     # keep the cache small: only the few most recent fact files per configuration survive
+    if os.environ.get("VERIF_TARGET_SUFFIX"):
+        return out, key, time.time() - t0, False      # a corpus worker: its caller moves the file away itself
     olds = sorted((f for f in os.listdir(CACHE) if f.startswith("facts-%s-" % config) and f.endswith(".json")
                    and os.path.join(CACHE, f) != out), key=lambda f: os.path.getmtime(os.path.join(CACHE, f)), reverse=True)
     for f in olds[4:]:
